@@ -155,17 +155,14 @@ def check_inject(case, ref, builders):
         for m in mlist[1:]:
             if contains(m, tgt):
                 continue
-            conns = {}
-            ok = True
-            for pn, port in list(m.ports.items()):
-                s = P.add(h.Signal(name=f"s{k}_{pn}", width=port.width))
-                conns[pn] = s
             if getattr(m, "bundle_ports", None) or m._pre_flattening_io is not None and any(
                     not isinstance(v, h.Signal) for v in m._pre_flattening_io.values()):
-                ok = False
-            if ok:
-                P.add(h.Instance(of=m, name=f"u{k}")(**conns))
-                k += 1
+                continue        # modules with bundle-valued ports are left out (on both sides alike)
+            conns = {}
+            for pn, port in list(m.ports.items()):
+                conns[pn] = P.add(h.Signal(name=f"s{k}_{pn}", width=port.width))
+            P.add(h.Instance(of=m, name=f"u{k}")(**conns))
+            k += 1
         return P if k else None
     fresh_top = builders[desc]()
     fmods = modules_of(fresh_top)
